@@ -14,7 +14,7 @@ LEVEL = 'model_checking'
 RULE = ('Engine B: explicit-state BFS to closure over a real TBRMMDiagnostics object. Alphabet: x := X_i (5 | 8 series '
         'incl. a constant one that makes the regression fail and series of 8 / 16 points), x := None, y := Y_j (3 | 5 series of 8, 12 and 16 points; a control series of the wrong length must be rejected and leave the state unchanged), and one read per '
         'public derived quantity (corr, required_impact, pretestfit, bbtest, dwtest, aatest, corr_test, tests_ok, '
-        'tbrfit and estimate_required_impact each with two argument values, x, y), for 2 | 3 parameter objects (one with a window so short that the A/A test is '
+        'tbrfit and estimate_required_impact each with two argument values, x, y), for 3 parameter objects (one with a window so short that the A/A test is '
         'undefined). State = byte-exact fingerprint of ALL instance attributes + entry counts of the identity-keyed lru caches + model (id of current x, id of current y); successor states are obtained by REPLAYING the history on a fresh real object (no deep copies). '
         'Invariant in every state and for every read transition: the answer (value or exception type) equals the answer '
         'of a freshly built object holding the model series. A second exploration (default parameters) mixes ordinary assignments with assignments made through ONE caller-owned buffer per role that is refilled in place and handed in again (aliasing between the array of the caller and the object; buffer contents are part of the state). Vacuity guard: each verdict takes both values over the '
@@ -178,7 +178,7 @@ def explore_par(pname, tier, jobs=8, alias=False):
 
 def run(tier, seed, jobs):
     res = engine.Result()
-    pnames = ['default', 'aa-undefined'] if tier == 'quick' else ['default', 'aa-undefined', 'strict']
+    pnames = ['default', 'aa-undefined', 'strict']
     parts = [explore_par(p, tier, jobs) for p in pnames]
     parts.append(explore_par('default', tier, jobs, alias=True))
     states = sum(r['states'] for r in parts)
